@@ -149,7 +149,7 @@ Example C01_calc2_ex_done :
   let rs := exec C01_calc2_ex false (C01_calc2_script ++ [EvStop 0%nat; EvLeaf 4%nat (OVal 3) 0%nat]) in
   r_roots rs = 1%nat /\ r_st rs = OFin /\ count_roots (r_tr rs) = 1%nat /\
   r_tr rs = r_tr (run C01_calc2_ex false C01_calc2_script)
-            ++ [XSkip; XRootDtor; XT (TLeafDtor 3); XT (TLeafDtor 2); XT (TValDtor SAll 0); XT (TValDtor SLetV 5)].
+            ++ [XSkip; XRootDtor; XT (TLeafDtor 3); XT (TLeafDtor 2)].
 Proof. vm_compute. repeat split. Qed.
 
 Example C01_calc2_ex_pending :
@@ -192,8 +192,7 @@ Proof. vm_compute. repeat split. discriminate. Qed.
 Example C01_calc2_ex_connect_throw :
   let e := Bin BLetV (Leaf 1) (Un UAllocate (Bin BWhenAll (Un UAllocate (Leaf 2)) (LeafC 3))) in
   r_tr (exec e false [EvLeaf 1%nat (OVal 5) 0%nat]) =
-    [XT (TLeafStart 1 false true 0 0 0 0); XT (TValCtor SLetV 5); XT (TLeafDtor 1); XT (TAlloc 0); XT (TFree 0);
-     XRoot (OErr 78) 0 0; XRootDtor; XT (TValDtor SLetV 5)] /\
+    [XT (TLeafStart 1 false true 0 0 0 0); XT (TLeafDtor 1); XT (TAlloc 0); XT (TFree 0); XRoot (OErr 78) 0 0; XRootDtor] /\
   r_tr (exec (Bin BWhenAll (LeafC 3) (Un UAllocate (Leaf 2))) false [EvLeaf 2%nat (OVal 1) 0%nat]) =
     [XT (TAlloc 0); XT (TFree 0); XConnectThrow; XSkip].
 Proof. vm_compute. split; reflexivity. Qed.
